@@ -1,4 +1,6 @@
 import SnaxVerif.Lemmas.CyclicLayout
+import SnaxVerif.Lemmas.CyclicLayoutDeep
+import SnaxVerif.Lemmas.CyclicLayoutTsl
 /-!
 # C09 — chosen memory layouts are one-to-one on the operand
 
@@ -214,5 +216,184 @@ example : Built [[⟨16, 2⟩, ⟨1, 8⟩]] 32 :=
 /-- `explicit_untouched` is not vacuous -/
 example : rewriteOp true true (some 1) [4]
     [{ shape := [4], elBits := some 8, hasTsl := true, ndims := 1, rows := [[1]] }] = .ok none := by decide +kernel
+
+
+/-! # Deepening round
+
+Vocabulary added in `Lemmas/CyclicLayoutDeep.lean`: `WellFormed`, `ErrOrigin`, `Granular`, `minGran`,
+`AllPos`, `Squash`, `Canonical`, `WellFormedM`; front-end model `Model/CyclicLayoutMaps.lean`. -/
+
+/-! ## exceptions: where they can come from, and totality inside the quantifier -/
+
+/-- Every exception of the rewrite has one of four origins, per exception class:
+`ValueError` — a bound ≤ 0 or #bounds ≠ #dims of some pattern; `AssertionError` — no accelerator
+template or an element type without fixed width; `IndexError` — a pattern with more results than
+its memref has dimensions; (`outsideModel` — a zero extent / ragged matrix). -/
+theorem error_origin (fixed tiled : Bool) (spatial : Option Nat) (bounds : List Int) (ops : List Operand) (e : Err)
+    (h : rewriteOp fixed tiled spatial bounds ops = .error e) : ErrOrigin spatial bounds ops e :=
+  rewriteOp_error h
+
+/-- `C09_total`: on every well-formed op (inside the property's quantifier) the pattern raises
+nothing: it either leaves the op alone (explicit layout) or produces the layouts — for the upstream
+and the fixed fill-up alike. (The oracle checks this per case on the real code; here for all inputs.) -/
+theorem C09_total (fixed tiled : Bool) (spatial : Option Nat) (bounds : List Int) (ops : List Operand)
+    (hwf : WellFormed spatial bounds ops) : ∃ r, rewriteOp fixed tiled spatial bounds ops = .ok r :=
+  rewriteOp_total hwf
+
+/-! ## the access granularity is met by every stride the schedule walk creates -/
+
+/-- `granularity_met`: the stride pushed by one iteration of the schedule loop (schedule dimension
+`k`) has step 1 (nothing allocated before it) or a step that is a multiple of the granularity of
+ITS regime: 8/16 elements temporal (`k ≥ spatial`), 8/2 spatial — for every width and template. -/
+theorem granularity_met (c : Cfg) (sp w : Nat) (hs : c.spatial = some sp) (hw : c.elBits = some w)
+    (S S' : Layout) (cur cur' k b : Nat) (col : List Int)
+    (h : stepCol c (S, cur) k b col = .ok (S', cur')) :
+    (S' = S ∧ cur' = cur) ∨
+    ∃ (d : Nat) (l : List Stride) (st : Stride), S[d]? = some l ∧ S' = S.set d (st :: l) ∧
+      (st.step = 1 ∨ gran sp w k ∣ st.step) := by
+  rcases stepCol_cases' h with h1 | ⟨d, l, n, cu, hl, _, hcu, h1, _⟩
+  · exact Or.inl h1
+  · rw [hs, hw] at hcu
+    exact Or.inr ⟨d, l, ⟨cu, _⟩, hl, h1, ensure_granular hcu⟩
+
+/-- after the whole walk every stride has step 1 or a multiple of 8 (8-bit) / 2 (wider) elements -/
+theorem walk_granular (c : Cfg) (sp w : Nat) (hs : c.spatial = some sp) (hw : c.elBits = some w)
+    (S : Layout) (cur : Nat) (h : walk c (revCols c) 0 (initState c.shape) = .ok (S, cur)) :
+    ∀ l ∈ S, ∀ p ∈ l, p.step = 1 ∨ minGran w ∣ p.step :=
+  granular_walk hs hw (revCols c) 0 _ _ S cur (granular_init w c.shape) h
+
+/-- every step and every bound of a chosen layout is ≥ 1 (a 0 would print as the dynamic `?`) -/
+theorem layout_positive (c : Cfg) (L : Layout) (hpos : ∀ n ∈ c.shape, 0 < n)
+    (h : cyclicLayout true c = .ok L) : ∀ l ∈ L, ∀ p ∈ l, 0 < p.step ∧ 0 < p.bound :=
+  cyclicLayout_pos hpos h
+
+/-! ## `TiledStride.canonicalize` / `TiledStridedLayout.canonicalize`: full specification -/
+
+/-- canonicalising a dimension changes neither the address of any index of its box nor its extent —
+for every list of strides (any depth, zero steps and bounds included) -/
+theorem canonicalize_dim (l : List Stride) :
+    prodB (canon l) = prodB l ∧ ∀ i, i < prodB l → addrDim (canon l) i = addrDim l i :=
+  ⟨prodB_canon l, fun i h => canon_addr l i h⟩
+
+/-- the result is in normal form (no unit bound above the innermost stride, no pair of neighbours the
+code would squash), normal forms are fixed points, hence `canonicalize` is idempotent; it never
+lengthens the list -/
+theorem canonicalize_normal_form (l : List Stride) :
+    Canonical (canon l) ∧ (Canonical l → canon l = l) ∧ canon (canon l) = canon l ∧
+    (canon l).length ≤ l.length :=
+  ⟨canon_canonical l, canon_of_canonical l, canon_idem l, canon_length_le l⟩
+
+/-- whole layouts: same box, same address for every element of the box, and aliasing is neither
+created nor removed -/
+theorem canonicalize_layout (S : Layout) :
+    (∀ idx, InBox (S.map canon) idx ↔ InBox S idx) ∧
+    (∀ idx, InBox S idx → addr (S.map canon) idx = addr S idx) ∧
+    (Inj (S.map canon) ↔ Inj S) :=
+  ⟨fun _ => inbox_map_canon, fun idx hb => addr_map_canon S idx hb.2, inj_map_canon⟩
+
+/-- every dimension of every layout the pass emits is in normal form (upstream and fixed code) -/
+theorem chosen_layout_canonical (fixed : Bool) (c : Cfg) (L : Layout)
+    (h : cyclicLayout fixed c = .ok L) : ∀ l ∈ L, Canonical l := by
+  unfold cyclicLayout at h
+  split at h
+  · cases h
+  · cases h
+    intro l hl
+    simp only [List.mem_map] at hl
+    obtain ⟨l0, _, rfl⟩ := hl
+    exact canon_canonical l0
+
+/-! ## the `TiledStridedLayout` class' own views of the chosen layouts (bridge to C10's model) -/
+
+/-- `layout_views`: for every layout the pass chooses, `TiledStridedLayout.all_values()` (C10's model of
+the class, `Model/Tsl.lean`) is exactly the list of addresses of the operand's elements in row-major
+order — so it has as many entries as the operand has elements — and `self_overlaps()` is `False`.
+(The oracle cross-checks both on the real objects per case; here for all inputs.) -/
+theorem layout_views (c : Cfg) (L : Layout) (hpos : ∀ n ∈ c.shape, 0 < n)
+    (h : cyclicLayout true c = .ok L) (off : Option Int) :
+    (Tsl.ofStatic (toS L) off).allValues = .ok ((Tsl.points c.shape).map (addr L)) ∧
+    (Tsl.ofStatic (toS L) off).selfOverlaps = .ok false :=
+  chosen_layout_views hpos h off
+
+/-- the two hand-written models of `TiledStride.canonicalize` (C09's `canon` on static strides, C10's
+`canonT` on possibly dynamic ones) and of the address function are the same functions -/
+theorem models_agree (l : List Stride) (L : Layout) (idx : List Nat) (hlen : idx.length = L.length) :
+    Tsl.canonT ((toS1 l).map Tsl.SStride.toStride) = (toS1 (canon l)).map Tsl.SStride.toStride ∧
+    Tsl.addr (toS L) idx = addr L idx := by
+  refine ⟨?_, addr_toS L idx hlen⟩
+  rw [Tsl.canonT_static, canonS_toS1]
+
+/-! ## the property from the op's own attributes (affine maps instead of matrices) -/
+
+def C09_statement_maps (fixed : Bool) : Prop :=
+  ∀ (tiled : Bool) (spatial : Option Nat) (bounds : List Int) (ops : List OperandM) (Ls : List Layout),
+    rewriteOpMaps fixed tiled spatial bounds ops = .ok (some Ls) →
+    Ls.length = ops.length ∧
+    ∀ (i : Nat) (o : OperandM) (L : Layout), ops[i]? = some o → Ls[i]? = some L →
+      Covers L o.shape ∧ InjectiveOn L o.shape
+
+/-- **C09** with the schedule construction (`SchedulePattern` + `AffineTransform.from_affine_map`)
+inside the model: for all affine maps, bounds, shapes, widths, templates and both modes -/
+theorem C09_injective_maps : C09_statement_maps true := by
+  intro tiled spatial bounds ops Ls h
+  exact rewriteOpMaps_spec h
+
+theorem C09_total_maps (fixed tiled : Bool) (spatial : Option Nat) (bounds : List Int) (ops : List OperandM)
+    (hwf : WellFormedM spatial bounds ops) : ∃ r, rewriteOpMaps fixed tiled spatial bounds ops = .ok r :=
+  rewriteOpMaps_total hwf
+
+/-- the guard comes before the schedule construction: an op with a TSL operand is untouched even if
+its patterns are not linear or its bounds are invalid -/
+theorem explicit_untouched_maps (fixed tiled : Bool) (spatial : Option Nat) (bounds : List Int)
+    (ops : List OperandM) (h : ∃ o ∈ ops, o.hasTsl = true) :
+    rewriteOpMaps fixed tiled spatial bounds ops = .ok none := by
+  unfold rewriteOpMaps
+  rw [if_pos (List.any_eq_true.mpr h)]
+
+/-! ## non-vacuity of the deepening theorems -/
+
+example : WellFormed (some 3) [2, 2, 2, 8, 8, 8]
+    [{ shape := [16, 16], elBits := some 8, hasTsl := false, ndims := 6,
+       rows := [[8, 0, 0, 1, 0, 0], [0, 0, 8, 0, 0, 1]] }] := by
+  refine ⟨by simp, by decide, ?_⟩
+  intro o ho
+  simp at ho; subst ho
+  refine ⟨by simp, rfl, by decide, by decide, by decide⟩
+
+/-- each error class occurs (so `error_origin` is about reachable outcomes) -/
+example :
+    rewriteOp true true (some 1) [0] [{ shape := [4], elBits := some 8, hasTsl := false, ndims := 1, rows := [[1]] }]
+      = .error .valueError ∧
+    rewriteOp true true none [2, 2] [{ shape := [2, 2], elBits := some 8, hasTsl := false, ndims := 2, rows := [[1, 0], [0, 1]] }]
+      = .error .assertion ∧
+    rewriteOp true true (some 1) [2] [{ shape := [2], elBits := some 8, hasTsl := false, ndims := 1, rows := [[0], [1]] }]
+      = .error .indexError := by decide +kernel
+
+/-- granularity: spatial i32 stride 3 -> 66 (`3 + (2 - 3) % 64`: a multiple of 2, far from the next
+one), temporal 3 -> 16 -/
+example : ensureGranularity (some 1) (some 32) 3 0 = .ok 66 ∧ ensureGranularity (some 1) (some 32) 3 1 = .ok 16 := by
+  decide
+
+/-- canonicalize: unit bound dropped, contiguous tiles squashed, gap kept -/
+example : canon [⟨32, 2⟩, ⟨8, 1⟩, ⟨4, 4⟩, ⟨1, 4⟩] = [⟨32, 2⟩, ⟨1, 16⟩] ∧
+    canon [⟨16, 2⟩, ⟨1, 8⟩] = [⟨16, 2⟩, ⟨1, 8⟩] ∧ Canonical [⟨16, 2⟩, ⟨1, 8⟩] := by
+  refine ⟨by decide, by decide, ?_⟩
+  exact ⟨by decide, by intro h; exact absurd h.2.2.1 (by decide), trivial⟩
+
+/-- the front end on the gemm operand of `set-memory-layout.mlir`: `(d0*8 + d3, d2*8 + d5)` -/
+example : rewriteOpMaps true true (some 3) [2, 2, 2, 8, 8, 8]
+    [{ shape := [16, 16], elBits := some 8, hasTsl := false, ndims := 6,
+       exprs := [.bin .add (.bin .mul (.dim 0) (.const 8)) (.dim 3),
+                 .bin .add (.bin .mul (.dim 2) (.const 8)) (.dim 5)] }] =
+    .ok (some [[[⟨128, 2⟩, ⟨8, 8⟩], [⟨64, 2⟩, ⟨1, 8⟩]]]) := by decide +kernel
+
+/-- a `floordiv` in a pattern is a `ValueError`; behind a TSL operand it is never looked at -/
+example :
+    rewriteOpMaps true true (some 1) [4]
+      [{ shape := [4], elBits := some 8, hasTsl := false, ndims := 1, exprs := [.bin .fdiv (.dim 0) (.const 2)] }]
+      = .error .valueError ∧
+    rewriteOpMaps true true (some 1) [4]
+      [{ shape := [4], elBits := some 8, hasTsl := true, ndims := 1, exprs := [.bin .fdiv (.dim 0) (.const 2)] }]
+      = .ok none := by decide +kernel
 
 end SnaxVerif.C09
